@@ -16,7 +16,7 @@ import pickle
 import copyreg
 from collections import OrderedDict
 
-from .state import RemoteState
+from .state import RemoteState, NoState
 
 
 class dyn_dispatch_table(dict):
@@ -83,6 +83,9 @@ class RemotePickler36(pickle.Pickler):
             for key, value in state.items():
                 if RemotePickler36.subject_to_custom_reduce(value):
                     children_names.append(key)
+
+        if state is None:
+            state = NoState
 
         newargs = (newobj, newargs, children_names)
         newobj = RemoteState.recreate_obj_and_patch_setstate
